@@ -71,9 +71,12 @@ pub fn extract_tokens(venue: Venue, request: &str) -> Result<Vec<ReqTok>, String
 
 /// What the venue puts into its messages for a market that was subscribed as `token`.
 /// Binance: subscribed lower-case, echoed upper-case (documented in binance/market.rs and
-/// binance/mod.rs). Every other connector: identity (nothing else is documented in the repo).
+/// binance/mod.rs). Kraken: pairs are spelled upper-case by the venue - the repo documents it in
+/// kraken/subscription.rs (the `subscribed` reply carries `"pair": "XBT/USD"`), kraken/message.rs,
+/// kraken/trade.rs (`trade|XBT/USD`) and kraken/book/l1.rs (`spread|XBT/USD`). Every other
+/// connector: identity (nothing else is documented in the repo).
 pub fn echo(venue: Venue, token: &str) -> String {
-    if venue.is_binance() { token.to_uppercase() } else { token.to_string() }
+    if venue.is_binance() || matches!(venue, Venue::KrakenTrade | Venue::KrakenSpread) { token.to_uppercase() } else { token.to_string() }
 }
 
 // ---------------------------------------------------------------------------------------------
